@@ -6,9 +6,11 @@ package main
 
 import (
 	"fmt"
+	"go/ast"
 	"go/constant"
 	"go/token"
 	"go/types"
+	"golang.org/x/tools/go/packages"
 	"regexp"
 	"regexp/syntax"
 	"sort"
@@ -51,6 +53,7 @@ type E7Spec struct {
 	ScannerLimit  []FuncRuleSpec     `json:"scanner_limit"`
 	InPlaceFilter []FuncRuleSpec     `json:"inplace_filter"`
 	WriteBack     []FuncRuleSpec     `json:"write_back"`
+	Shadow        []FuncRuleSpec     `json:"shadowed_result"`
 }
 
 type FuncRuleSpec struct {
@@ -194,6 +197,9 @@ func runE7(p *Program, sp *Spec, c *Collector) {
 	}
 	for _, wb := range t.WriteBack {
 		runWriteBack(p, c, wb)
+	}
+	for _, sh := range t.Shadow {
+		runShadow(p, c, sh)
 	}
 	for _, n := range t.NoExit {
 		runNoExit(p, sp, c, n)
@@ -3415,4 +3421,155 @@ func sameFieldValue(v ssa.Value, al *ssa.Alloc, f int, depth int) bool {
 		}
 	}
 	return false
+}
+
+// ---------------------------------------------------------------------------------------------
+// shadowed result: `x := f()` inside an inner block declares a new x when the function already has an x of the same type that is
+// read after that block: the value computed inside never reaches the later use (which sees the outer variable's old or zero
+// value). Decided on the type-checked syntax: both objects, their scopes and the later use are resolved by go/types.
+func runShadow(p *Program, c *Collector, a FuncRuleSpec) {
+	want := map[string]bool{}
+	for _, f := range a.Funcs {
+		if strings.HasPrefix(f, "pkg:") {
+			want[strings.TrimPrefix(f, "pkg:")] = true
+		}
+	}
+	for _, pk := range p.Pkgs {
+		if !want[rel(pk.PkgPath)] {
+			continue
+		}
+		n := 0
+		for _, file := range pk.Syntax {
+			ast.Inspect(file, func(nd ast.Node) bool {
+				as, ok := nd.(*ast.AssignStmt)
+				if !ok || as.Tok != token.DEFINE {
+					return true
+				}
+				for _, lhs := range as.Lhs {
+					id, ok := lhs.(*ast.Ident)
+					if !ok || id.Name == "_" || id.Name == "err" || id.Name == "ok" {
+						continue
+					}
+					inner, _ := pk.TypesInfo.Defs[id].(*types.Var)
+					if inner == nil || inner.Parent() == nil {
+						continue
+					}
+					// an outer variable of the same name and type in an enclosing scope of the same function
+					var outer *types.Var
+					for sc := inner.Parent().Parent(); sc != nil && sc != pk.Types.Scope(); sc = sc.Parent() {
+						if o, ok := sc.Lookup(id.Name).(*types.Var); ok && o.Pos() < inner.Pos() && types.Identical(o.Type(), inner.Type()) && !o.IsField() {
+							outer = o
+							break
+						}
+					}
+					if outer == nil || outer.Parent() == pk.Types.Scope() || outer.Parent() == types.Universe {
+						continue
+					}
+					n++
+					// is the outer variable read after the inner scope ends?
+					end := inner.Parent().End()
+					// the statement of the outer variable's own block that contains the inner declaration: a use in a sibling branch
+					// of that statement (the else of the if) is not reached from the inner block
+					for node, sc := range pk.TypesInfo.Scopes {
+						if sc != outer.Parent() {
+							continue
+						}
+						var stmts []ast.Stmt
+						switch b := node.(type) {
+						case *ast.BlockStmt:
+							stmts = b.List
+						case *ast.FuncType:
+							ast.Inspect(file, func(x ast.Node) bool {
+								switch fd := x.(type) {
+								case *ast.FuncDecl:
+									if fd.Type == b && fd.Body != nil {
+										stmts = fd.Body.List
+									}
+								case *ast.FuncLit:
+									if fd.Type == b {
+										stmts = fd.Body.List
+									}
+								}
+								return true
+							})
+						case *ast.CaseClause:
+							stmts = b.Body
+						}
+						for _, st := range stmts {
+							if st.Pos() <= id.Pos() && id.Pos() <= st.End() && st.End() > end {
+								end = st.End()
+							}
+						}
+					}
+					var later token.Pos
+					for use, obj := range pk.TypesInfo.Uses {
+						if obj == types.Object(outer) && use.Pos() > end && (later == token.NoPos || use.Pos() < later) && !passedToUnusedParam(p, pk, file, use) {
+							later = use.Pos()
+						}
+					}
+					key := fmt.Sprintf("shadow:%s %s", rel(pk.PkgPath), id.Name) + "@" + enclosingFuncName(file, id.Pos())
+					if later != token.NoPos {
+						c.Ob(a.Props, "E7.shadowed-result", key, Violated, a.What+": `"+id.Name+" := …` declares a new variable inside an inner block; the "+id.Name+" declared at "+p.Pos(outer.Pos())+" is what "+p.Pos(later)+" reads, and it never receives the value computed here", p.Pos(id.Pos()), false)
+					} else {
+						c.Ob(a.Props, "E7.shadowed-result", key, Discharged, "the outer "+id.Name+" is not used after the inner block", p.Pos(id.Pos()), true)
+					}
+				}
+				return true
+			})
+		}
+		if n == 0 {
+			c.Ob(a.Props, "E7.shadowed-result", "shadow:pkg "+rel(pk.PkgPath), Discharged, "no := re-declares a variable of an enclosing block", "", true)
+		}
+	}
+}
+
+func enclosingFuncName(file *ast.File, pos token.Pos) string {
+	name := "<file>"
+	for _, d := range file.Decls {
+		if fd, ok := d.(*ast.FuncDecl); ok && fd.Pos() <= pos && pos <= fd.End() {
+			name = fd.Name.Name
+		}
+	}
+	return name
+}
+
+// passedToUnusedParam: the identifier is a direct argument of a call of an own function whose corresponding parameter is never
+// used (a stub): that read has no effect.
+func passedToUnusedParam(p *Program, pk *packages.Package, file *ast.File, id *ast.Ident) bool {
+	res := false
+	ast.Inspect(file, func(n ast.Node) bool {
+		call, ok := n.(*ast.CallExpr)
+		if !ok || res {
+			return !res
+		}
+		for i, a := range call.Args {
+			if a != ast.Expr(id) {
+				continue
+			}
+			var fobj types.Object
+			switch f := call.Fun.(type) {
+			case *ast.Ident:
+				fobj = pk.TypesInfo.Uses[f]
+			case *ast.SelectorExpr:
+				fobj = pk.TypesInfo.Uses[f.Sel]
+			}
+			tf, ok := fobj.(*types.Func)
+			if !ok {
+				continue
+			}
+			sf := p.SSA.FuncValue(tf)
+			if sf == nil || len(sf.Blocks) == 0 {
+				continue
+			}
+			k := i
+			if sf.Signature.Recv() != nil {
+				k++
+			}
+			if k < len(sf.Params) && (sf.Params[k].Referrers() == nil || len(*sf.Params[k].Referrers()) == 0) {
+				res = true
+			}
+		}
+		return true
+	})
+	return res
 }
